@@ -952,6 +952,12 @@ class Family:
         for d in range(3 if self.tier == "quick" else 8):
             deep = ("if", [c(name=f"d{d}")], deep, None if d % 2 else ("else", g(1)))
         yield self.prog(deep, True, ("a",), "deep nesting")
+        # far deeper than any hand-written experiment (CPython's tokenizer allows 100 indentation levels): anything in
+        # the generator that saturates, caches or pre-computes per depth shows here
+        very = g(1)
+        for d in range(30 if self.tier == "quick" else 90):
+            very = ("if", [c(name=f"v{d % 7}")], very, None)
+        yield self.prog(very, True, ("a",), "very deep nesting")
 
     def predicate_variants(self):
         c = self.cmp
